@@ -3,6 +3,14 @@
 import json, subprocess
 ALL = ["C%02d" % i for i in range(1, 21)]
 CHECKS = {
+ "C04": dict(level="exploration", design="§4 C04",
+   technique="runtime monitoring: invariant hook evaluated at every quiescent point (synctest.Wait) of generated session histories incl. sessions killed inside the handshake window; id multiset + 16-goroutine storms, also under a degenerate random source; race detector (a race in the registry is a violation)",
+   text="Generated histories of handshakes, closes by every cause, upgrades, stale requests and sessions that die while server.Handshake.afterNewSocket holds the handshake are run on one server; after every operation the bubble is quiesced and table == count == live announced sessions is asserted (no closed session reachable, no underflow), requests naming closed sessions must get 400 code 1, Server.Close must empty the table; ids are checked for uniqueness and URL-safety across the process and in concurrent storms, even when crypto/rand is replaced by a constant reader.",
+   note="Quiescence is synctest.Wait plus 1 ms of virtual time; the handshake window is reached through a build-tagged hook."),
+ "C12": dict(level="exploration", design="§4 C12",
+   technique="runtime monitoring on virtual time: client-side receive log vs accepted sends around Close(false) (writer goroutine optionally held at *.send.start), bounded-time close oracle for silent clients, pending-poll release, one-close-per-session and empty-table oracle after Server/HttpServer shutdown",
+   text="Generated cases on polling, WebSocket and in-memory WebTransport: graceful close with accepted-but-unsent packets (poll pending or absent; writer goroutine optionally held), silent clients (close within max(30 s, PI+PT)+PT of virtual time), a pending poll while the session closes by each cause (must be answered 200 with close/noop), Server.Close and HttpServer.Close with 1-20 mixed sessions incl. an upgrade in progress.",
+   note="Known finding (not repaired): WebSocket/WebTransport DoClose tears the connection down concurrently with the asynchronous writer goroutine, so packets accepted before Close(false) can be lost; keyed per transport, the polling lanes stay strict."),
  "C03": dict(level="fault_enumeration", design="§4 C03",
    technique="runtime monitoring with fault enumeration: all ordered pairs of close causes fired at one virtual instant on every transport, goroutines held at hooked check-then-act windows and released in every order; per-session trace automaton over the event/ready-state log; registry invariant",
    text="Every single cause and every ordered pair of {peer disconnect, transport error, heartbeat expiry, Close(false), Close(true), Server.Close, parse error} is injected on polling, WebSocket and in-memory WebTransport sessions; goroutines arriving in socket.OnClose.window / socket.Close.window / server.Handshake.afterNewSocket are held and released in both orders (triples and PRNG orders in thorough). An automaton over the tap log checks forward-only state writes, exactly one close event with a reason attributable to an injected cause, silence after close, connection events only for open sessions, silent Send after close, and sessions without a cause staying open.",
